@@ -141,8 +141,9 @@ func rqRun(which string) func(c *core.Ctx) {
 	return func(c *core.Ctx) {
 		var evals, distinct atomic.Int64
 		inst, exh := 0, 0
-		for s := 0; s < dyn.NB; s++ {
-			for d := 0; d < dyn.NB; d++ {
+		for _, sd := range instOrder() {
+			{
+				s, d := sd[0], sd[1]
 				ts, td := dyn.Types[s], dyn.Types[d]
 				if ts.Kind == dyn.Float || td.Kind == dyn.Float {
 					continue
@@ -235,6 +236,7 @@ func rqRun(which string) func(c *core.Ctx) {
 		}
 		c.Set("evaluations", evals.Load())
 		c.Set("distinct_nontrivial", distinct.Load())
+		c.ReverseOrderPass("mc-shim")
 		c.Set("instantiations", inst)
 		c.Set("instantiations_with_exhaustive_source_domain", exh)
 		c.Set("exhaustive", exh == inst)
@@ -253,6 +255,7 @@ func init() {
 		core.Register(&core.Prop{
 			ID: w, Level: "exploration", Design: "§5 C06, C07",
 			Run:     rqRun(w),
+			Worker:  core.SweepWorker,
 			RunCase: func(c *core.Ctx, raw json.RawMessage) []F { return rqEvalCase(w, decode[rqCase](raw)) },
 		})
 	}
